@@ -8,7 +8,8 @@
    history ops (exec e init ops is the state after running ops from the fresh space), including rejected
    operations, operations on removed agents and arbitrary recorded random outcomes. *)
 From Coq Require Import ZArith List Bool.
-From Mesa Require Import Common.ListX Generated.Tables Model.CellSpace Proofs.CellSpaceProofs.
+From Coq Require Import Permutation.
+From Mesa Require Import Common.ListX Generated.Tables Model.CellSpace Proofs.CellSpaceProofs Proofs.CellSpaceRefine.
 Import ListNotations.
 Open Scope Z_scope.
 
@@ -132,6 +133,26 @@ Theorem C18_cellspace_atomic_remove : forall e ops a s' k, caps_ok e ->
 Proof. exact (fun e ops a => atomic_all e ops (Remove a)). Qed.
 Print Assumptions C18_cellspace_atomic_remove.
 
+(* ... and is invisible to the rest of the history: every later observation is the one the history without the
+   rejected call would give (C18_continue of DESIGN.md) *)
+Theorem C18_cellspace_atomic_continue : forall e s o s' k rest, caps_ok e -> Inv e s ->
+  step e s o = (s', Err k) -> run_ops e s' rest = run_ops e s rest.
+Proof. exact rejected_then_continue. Qed.
+Print Assumptions C18_cellspace_atomic_continue.
+
+(* ---- refinement: the model implements the counting specification astep (CellSpaceRefine.v: a partial map
+   agent -> cell, a cell is full when the NUMBER OF AGENTS mapped to it reaches the capacity - the shadow dictionary of
+   the Python oracle).  For every history: the same result for every operation, the same agent.cell and registration,
+   and every cell lists, up to order, exactly the agents the specification maps to it. *)
+Theorem C06_refines_counting_spec : forall e ops, caps_ok e ->
+  let s := exec e init ops in let t := aexec e ainit ops in
+  results_of e init ops = aresults e ainit ops /\
+  (forall a, ptr s a = a_loc t a) /\ (forall a, reg s a = a_reg t a) /\
+  (forall c, Permutation (content s c) (occupants e t c)) /\
+  (forall c, zlen (content s c) = zlen (occupants e t c)).
+Proof. exact refines_spec. Qed.
+Print Assumptions C06_refines_counting_spec.
+
 (* ---- non-vacuity: one concrete space (2x2 von Neumann grid without torus, capacity 1; agents: CellAgent 1, 2,
    FixedAgent 3, Grid2DMovingAgent 4) on which the hypotheses hold and every rejecting site really rejects *)
 Definition ex_case (ops : list op) : case :=
@@ -192,3 +213,19 @@ Example C18_example_rejections :
   results ex_env ex_ops (Move2D 4 [101] 1) = Ok [] /\
   ptr (exec ex_env init (ex_ops ++ [Move2D 4 [101] 1])) 4 = Some 3.
 Proof. vm_compute. repeat split; reflexivity. Qed.
+
+Example C06_example_refinement :
+  let ops := ex_ops ++ [SetCell 1 (Some 1); SetCell 3 (Some 3); Remove 3; Remove 3; Move2D 4 [110] 1; Remove 1] in
+  aresults ex_env ainit ops = [Ok []; Ok []; Ok []; Err E_FULL; Ok []; Ok []; Err E_NOTIN; Err E_FULL; Ok []] /\
+  occupants ex_env (aexec ex_env ainit ops) 1 = [2] /\ occupants ex_env (aexec ex_env ainit ops) 3 = [] /\
+  a_loc (aexec ex_env ainit ops) 3 = Some 3 /\ a_dang (aexec ex_env ainit ops) 3 = true.
+Proof. vm_compute. repeat split; reflexivity. Qed.
+
+Example C18_example_continue :
+  let s := exec ex_env init ex_ops in
+  Inv ex_env s /\ snd (step ex_env s (SetCell 1 (Some 1))) = Err E_FULL /\
+  run_ops ex_env (fst (step ex_env s (SetCell 1 (Some 1)))) [MoveRel 1 [1; 0]; Remove 2] =
+  run_ops ex_env s [MoveRel 1 [1; 0]; Remove 2].
+Proof.
+  split; [apply reach_inv; exact C06_example_caps_ok|]. vm_compute. split; reflexivity.
+Qed.
